@@ -856,6 +856,125 @@ pub fn attr_probe_cases() -> Vec<(String, String, bool, String, S)> {
     v
 }
 
+fn collect_callfns(s: &S, out: &mut Vec<String>) {
+    if let S::L(items) = s {
+        if let [S::A(tag), S::A(name), ..] = items.as_slice() {
+            if tag == "callfn" && !out.contains(name) {
+                out.push(name.clone());
+            }
+        }
+        for it in items {
+            collect_callfns(it, out);
+        }
+    }
+}
+
+/// every function the REAL generated code calls by its bare name, per derived method and leaf type: one
+/// definition per primitive type goes through the real `parser -> lower -> derive::expand`, the names are
+/// read off the impl blocks it appended (nothing here lists the helpers)
+pub fn called_helpers() -> Vec<(String, String, FT)> {
+    let mut prims = vec![FT::Unit, FT::Bool, FT::Str, FT::Float(32), FT::Float(64)];
+    for b in [8u32, 16, 32, 64] {
+        prims.push(FT::Int(b, true));
+        prims.push(FT::Int(b, false));
+    }
+    let mut v = Vec::new();
+    for ft in prims {
+        let src = format!("#[derive(ToJson, ToString)]\nstruct In {{\n    f: {},\n}}\n", ft_src(&[], &ft));
+        let Some(S::L(impls)) = derived_impls(&src) else { continue };
+        for imp in &impls {
+            let S::L(items) = imp else { continue };
+            for m in items.iter().skip(2) {
+                let S::L(mi) = m else { continue };
+                let Some(S::A(method)) = mi.get(1) else { continue };
+                let mut names = Vec::new();
+                collect_callfns(m, &mut names);
+                for h in names {
+                    v.push((method.clone(), h, ft.clone()));
+                }
+            }
+        }
+    }
+    v
+}
+
+/// hygiene of the generated code against the PACKAGE it is expanded in: for every (derived method, helper it
+/// calls, leaf type) a two-package project whose library package defines the derived type next to a function
+/// of the package that is spelled like the helper (same signature / another signature), plus two controls (no
+/// such function; a function whose name merely starts like the helper). `Lib::show()` returns the derived
+/// method's text for one value; Main prints it. Expected: the text of the declarative writers.
+/// (id, files, expected stdout, method, helper, shape)
+pub fn helper_capture_cases(thorough: bool) -> Vec<(String, Vec<(String, String)>, String, String, String, String, String)> {
+    let mut v = Vec::new();
+    let mut rng = Rng::new(0xC18);
+    for (k, (method, helper, ft)) in called_helpers().into_iter().enumerate() {
+        let val = match &ft {
+            FT::Unit => V::Unit,
+            FT::Bool => V::Bool(true),
+            FT::Int(_, s) => V::Int(if *s { -7 } else { 7 }),
+            FT::Float(b) => V::Float(1.5, if *b == 32 { "1.5f32".into() } else { "1.5".into() }),
+            _ => V::Str("a\"b\\c".into()),
+        };
+        for (ki, kind) in ["struct", "enum"].iter().enumerate() {
+            if !thorough && (k + ki) % 2 == 1 {
+                continue;
+            }
+            let def = Def {
+                name: "In".into(),
+                kind: if *kind == "struct" { Kind::Struct(vec![("f".into(), ft.clone())]) } else { Kind::Enum(vec![("A".into(), vec![]), ("B".into(), vec![FT::Int(32, true), ft.clone()])]) },
+                attrs: Vec::new(),
+            };
+            let defs = vec![def];
+            let value = if *kind == "struct" { V::Struct(0, vec![val.clone()]) } else { V::Enum(0, 1, vec![V::Int(3), val.clone()]) };
+            let cfg = Cfg { all_strings: false, all_prims: true, capturing_names: false, floats: true, nonfinite: false, to_json: method == "to_json", to_string: method == "to_string" };
+            let item = program_src(&mut rng, &cfg, &defs, &[]);
+            let item = &item[..item.find("fn main()").unwrap_or(item.len())];
+            let want = if method == "to_json" { spec_json(&defs, &FT::Named(0), &value) } else { spec_string(&defs, &FT::Named(0), &value) };
+            let tsrc = ft_src(&defs, &ft);
+            for shape in ["same-signature", "other-signature", "control-absent", "control-longer-name"] {
+                let userfn = match shape {
+                    "same-signature" => format!("fn {}(x: {}) -> string {{\n    \"captured\"\n}}\n\n", helper, tsrc),
+                    "other-signature" => format!("fn {}() -> int32 {{\n    0\n}}\n\n", helper),
+                    "control-longer-name" => format!("fn {}_of(x: {}) -> string {{\n    \"captured\"\n}}\n\n", helper, tsrc),
+                    _ => String::new(),
+                };
+                let lib = format!("package Lib\n\n{}{}fn show() -> string {{\n    {}.{}()\n}}\n", userfn, item, val_src(&mut rng, &defs, &FT::Named(0), &value), method);
+                let main = "package Main\nimport Lib\n\nfn main() -> unit {\n    string_println(Lib::show())\n}\n".to_string();
+                v.push((
+                    format!("helper:{}:{}:{}:{}:{}", method, helper, tsrc, kind, shape),
+                    vec![("Lib/lib.gom".to_string(), lib), ("main.gom".to_string(), main)],
+                    format!("{}\n", want),
+                    method.clone(),
+                    helper.clone(),
+                    shape.to_string(),
+                    case_sexp(&cfg, &defs, &[]).to_text(),
+                ));
+            }
+        }
+    }
+    v
+}
+
+/// a project of several files in a directory of its own; the entry is `main.gom`
+fn emit_project(id: &str, dir: &std::path::Path, files: &[(String, String)], out: &mut String) {
+    let _ = std::fs::remove_dir_all(dir);
+    let mut all = String::new();
+    for (rel, text) in files {
+        let p = dir.join(rel);
+        let _ = std::fs::create_dir_all(p.parent().unwrap());
+        let _ = std::fs::write(&p, text);
+        write!(all, "// ---- {}\n{}", rel, text).unwrap();
+    }
+    writeln!(out, "{}\tSRC\t{}", id, esc_line(&all)).unwrap();
+    let entry = dir.join("main.gom");
+    let src = std::fs::read_to_string(&entry).unwrap_or_default();
+    match util::compile_path(&entry, &src) {
+        Outcome::Ok(c) => c01::dump_case(id, &c, out),
+        Outcome::Err(stage, msgs) => writeln!(out, "{}\tREJECT\t{}\t{}", id, stage, esc_line(&msgs.join(" | "))).unwrap(),
+        Outcome::Panic(m) => writeln!(out, "{}\tPANIC\t{}", id, esc_line(&m)).unwrap(),
+    }
+}
+
 fn emit(id: &str, dir: &std::path::Path, src: &str, out: &mut String) {
     writeln!(out, "{}\tSRC\t{}", id, esc_line(src)).unwrap();
     match util::compile_text(dir, src) {
@@ -1052,6 +1171,12 @@ pub fn main(args: &util::Args) {
         }
         emit(&id, &dir, &src, &mut out);
     }
+    let mut helper_hist: std::collections::BTreeMap<String, usize> = Default::default();
+    for (k, (id, files, want, method, helper, shape, case)) in helper_capture_cases(args.tier == "thorough").into_iter().enumerate() {
+        *helper_hist.entry(format!("{}:{}", method, helper)).or_default() += 1;
+        writeln!(out, "{}\tHELPER\t{}\t{}\t{}\t{}\t{}", id, esc_line(&want), method, helper, shape, case).unwrap();
+        emit_project(&id, &dir.join(format!("helper{}", k)), &files, &mut out);
+    }
     for (k, (kind, src)) in reject_cases().into_iter().enumerate() {
         let id = format!("rej:{}:{}", k, kind);
         writeln!(out, "{}\tEXPECTREJECT\t{}", id, kind).unwrap();
@@ -1059,11 +1184,12 @@ pub fn main(args: &util::Args) {
     }
     writeln!(
         out,
-        "#FEATS\tstring-classes: {} | field-types: {} | special-field-names: {} | attribute-spellings: {}",
+        "#FEATS\tstring-classes: {} | field-types: {} | special-field-names: {} | attribute-spellings: {} | helpers-called-by-generated-code(projects): {}",
         CLASSES.iter().zip(&hist).map(|((k, _), v)| format!("{}={}", k, v)).collect::<Vec<_>>().join(" "),
         ft_hist.iter().map(|(k, v)| format!("{}={}", if k.is_empty() { "named" } else { k }, v)).collect::<Vec<_>>().join(" "),
         name_hist.iter().map(|(k, v)| format!("{}={}", k, v)).collect::<Vec<_>>().join(" "),
-        attr_hist.iter().map(|(k, v)| format!("{}={}", k, v)).collect::<Vec<_>>().join(" ")
+        attr_hist.iter().map(|(k, v)| format!("{}={}", k, v)).collect::<Vec<_>>().join(" "),
+        helper_hist.iter().map(|(k, v)| format!("{}={}", k, v)).collect::<Vec<_>>().join(" ")
     )
     .unwrap();
     let _ = std::fs::remove_dir_all(&dir);
